@@ -38,7 +38,7 @@ func init() {
 			"interleavings are explored at the granularity of the inserted yield points (function entries, loop heads; statements at level 2), not of machine instructions; the free-running -race pass covers unsynchronised accesses between them but is sampling, not exhaustive, and is reported separately",
 			"the instrumenter rewrites the CURRENT working tree mechanically (tools/instrument); a construct it cannot handle is an infrastructure failure",
 		},
-		QuickBudget: 100 * time.Second,
+		QuickBudget: 300 * time.Second,
 		ThoroBudget: 14 * time.Minute,
 		Run:         runC11,
 	})
